@@ -5,7 +5,13 @@ consistent projection sets + optional magnetic order); its free parameters (latt
 coordinates) are part of the JSON case.  `build_start(case)` makes a random, NON symmetric start model with the
 number and order of Wannier functions that System_R.symmetrize() documents (for every projection string: the
 atoms of that species in the order of `positions`, for every atom its orbitals, spin interlaced), and
-`symmetrize(system, struct)` calls the real symmetriser.
+`symmetrize(system, struct)` calls the real symmetriser.  `build_symmetrizer(resolved struct, frames)` is the second
+route: the harness builds the irrep SpaceGroup, one Projection per Wyckoff orbit with SITE DEPENDENT local frames and
+the SymmetrizerSAWF for System_R.symmetrize2(), and returns the order of Wannier functions this symmetriser expects.
+
+The family 'nonprim' holds NON-PRIMITIVE cells (conventional bcc / fcc, supercells): their space group contains pure
+fractional translations, every rotation occurs with several translations, and one species has several atoms that are
+related by a translation only.  C07 does not draw from this family.
 
 Projection sets are *consistent*: the span of the orbitals on a site is closed under every operation of the
 group (hybrids such as sp2, pz, t2g are only offered where the lattice operations keep their subspace).
